@@ -280,8 +280,11 @@ func (g *G) Block(depth int, top bool) *schema.BlockSchema {
 		bs.Body = g.Body(depth, top)
 	}
 	if g.coin(0.25) {
-		bs.MinItems = uint64(g.pick(2))
+		bs.MinItems = uint64(g.pick(4))
 		bs.MaxItems = uint64(g.pick(3))
+		if bs.MaxItems > 0 && bs.MaxItems < bs.MinItems {
+			bs.MaxItems = bs.MinItems
+		}
 	}
 	if g.coin(0.2) || (g.O.Mods && g.coin(0.85)) {
 		bs.SemanticTokenModifiers = lang.SemanticTokenModifiers{lang.SemanticTokenModifier(g.id("bmod"))}
